@@ -117,8 +117,8 @@ def run_target(ctx, name, lines, classes, par=6, timeout=420):
 def run(ctx, vecs, classes, executed, targets=None, n_bytes=None, n_sub=None):
     q = ctx.quick
     targets = targets or (["neon"] if q else ["neon", "be64", "le32"])
-    nb = n_bytes if n_bytes is not None else (48 if q else 1500)
-    ns = n_sub if n_sub is not None else (16 if q else 600)
+    nb = n_bytes if n_bytes is not None else (200 if q else 1500)
+    ns = n_sub if n_sub is not None else (60 if q else 600)
     lines = to_lines(vecs, nb, ns, ctx.seed)
     for name in targets:
         t0 = time.time()
